@@ -97,7 +97,7 @@ func (sc *StoreScenario) ModelRequest(prop string) string {
 // lake not existing.  lake.Root.readLakeMagic reads its first value after the next Read of the
 // same zngio reader, i.e. from a buffer already returned to zngio's pool; with several harness
 // workers in one process another goroutine may have reused that buffer.  (Recorded in
-// /verif/pending; not a C12/C17 matter.)  A garbled read can only fail or panic — the magic
+// /verif/pending/applied, fixed in /repo by 6cd9150ae; the retry is kept as a harmless guard.)  A garbled read can only fail or panic — the magic
 // string must match — so retrying is sound.
 func StoreOpenLake(e *StoreEngine, client int) (root *lake.Root, err error) {
 	for try := 0; try < 6; try++ {
@@ -1067,3 +1067,27 @@ func (r *StoreRun) NextCommutes(c int) bool {
 }
 
 func ParseKSUID(s string) (ksuid.KSUID, error) { return ksuid.Parse(s) }
+
+// TraceCounts classifies the model-visible trace for the evidence statistics: journal snapshot
+// reads/writes, put-if-absent conflicts, commit-object removals, prefix deletes.
+func (r *StoreRun) TraceCounts() map[string]int {
+	out := map[string]int{}
+	for _, ev := range r.E.TraceFrom(0) {
+		if ev.Client >= 900 {
+			continue
+		}
+		switch {
+		case strings.HasSuffix(ev.Path, "/snap.zng") && ev.Op == "get" && ev.Res == "ok":
+			out["journal-snapshot-read"]++
+		case strings.HasSuffix(ev.Path, "/snap.zng") && ev.Op == "put":
+			out["journal-snapshot-written"]++
+		case ev.Op == "putx" && ev.Res == "exists":
+			out["put-if-absent-lost"]++
+		case ev.Op == "del" && strings.Contains(ev.Path, "/commits/"):
+			out["commit-object-removed"]++
+		case ev.Op == "delp":
+			out["pool-directory-deleted"]++
+		}
+	}
+	return out
+}
